@@ -94,6 +94,8 @@ def make_callers(procs):
     add("root-a", 0, pid, path, cmd)
     pid, path, cmd = procs.spawn("tool", ["my tool", "1", "600"])  # spaces in the command line only
     add("nobody-tool", e2e.NOBODY_UID, pid, path, cmd)
+    pid, path, cmd = procs.spawn("tool", ["my tool", "2", "600"])  # same user and executable, another command line
+    add("nobody-tool2", e2e.NOBODY_UID, pid, path, cmd)
     return pool
 
 
@@ -569,7 +571,7 @@ def run(ctx):
                                         for h in hs for c in h["conns"] for rq in c["reqs"] if c["dest"] in ENDPOINT_KEY and c["rules"][ENDPOINT_KEY[c["dest"]]] is not None}),
             "traces_validated_against_impl": total - len({json.dumps(d["case"].get("name"), sort_keys=True) for d in disagreements}),
             "rule": "histories of 5-60 requests on 1-8 connections (sequential, with rule changes and summary clears between connections) or 4 "
-                    "concurrent keep-alive connections, 1-4 callers out of 7 (root/nobody/no-such-user x driver/sleep/custom executables, two of "
+                    "concurrent keep-alive connections, 1-4 callers out of 8 (root/nobody/no-such-user x driver/sleep/custom executables, two of "
                     "them colliding under a space-joined key), destinations WireServer/HostGAPlugin/IMDS/other/self, per-endpoint rule "
                     "documents (mode enforce/audit/disabled in several spellings, default allow/deny, optional privileges/roles/identities) or no "
                     "rules; evaluations = requests; non-trivial = distinct (caller, destination, request, rule documents) with rules in force "
